@@ -692,8 +692,15 @@ func (b *c02B) observe() {
 func c02Gen(c *Ctx) {
 	// is the private generator reachable?
 	{
+		// the probe must not depend on values the code under test chooses (a changed initial level must show up as a
+		// difference in Shape, not switch the observation off): with the scripted source the first insert gets a tower
+		// of height 2 (a new tower is at most one level above the current one), after which the level field and the tower of the first node must both read 2
 		s := listz.NewSkipList[int64, int64]()
-		if !c02Inject(s, &c02Script{}) || c02Level(s) != 1 || !c02IsZero(new(listz.SkipList[int64, int64])) {
+		okInject := c02Inject(s, &c02Script{ws: []uint64{1 << 30}})
+		if okInject {
+			s.Set(1, 1)
+		}
+		if !okInject || c02Level(s) != 2 || s.Head() == nil || c02Height(s.Head()) != 2 || !c02IsZero(new(listz.SkipList[int64, int64])) {
 			c02HookOK = false
 			c.Note("private fields rand/level/head.next not reachable by reflection: tower heights are NOT scripted and NOT compared in this run (Shape replaced by Len)")
 		} else {
